@@ -4,6 +4,8 @@
    that its constructor instantiates.  Right-hand sides: Spec/C08.v.  `fits w v` = 0 <= v < 2^w (what C06 guarantees for a
    wire of width w); `is_bit v` = v is 0 or 1.  All widths, arities, constants and inputs are universally quantified. *)
 From V Require Import Base.Bits Gen.WireOps Gen.Prims Spec.C08 Model.StructLogic Proofs.C08.All.
+From V Require Import Model.SimKernel Spec.C04 Proofs.C08.PrioWide Proofs.C08.Netlist.
+From V Require Proofs.C08.NetlistDump.
 
 (* Width formulas.  Xor2's internal wires are `mid wa wb wr` bits wide and Equal's xor wire `eqw wa wb` bits; the models take the formulas
    as parameters and the check PROBES them on the real blocks.  The headline theorems below are stated for the formulas of the current /repo
@@ -122,6 +124,34 @@ Proof. exact PriorityEncoder_correct. Qed.
 Theorem C08_priority_encoder_at : forall inc a i, Forall is_bit a -> (i < length a)%nat ->
   nth i (PriorityEncoder_m 1 inc a) 0 = b2z ((nth i a 0 =? 1) && all_zero (if inc then skipn (S i) a else firstn i a)).
 Proof. exact PriorityEncoder_at. Qed.
+(* requests of ANY width w (the constructor accepts every width: only len(a) == len(r) is asserted): the block is the BITWISE priority
+   encoder  r_i = a_i & ~(OR of the requests of higher priority), cut to w bits - no guard on the inputs; read per bit position it is w
+   independent 1-bit encoders; for 1-bit requests the bitwise function is prio_spec (so C08_priority_encoder is the instance w = 1) *)
+Theorem C08_priority_encoder_wide : forall w inc a, 0 <= w ->
+  PriorityEncoder_m w inc a =
+  map (fun i => Z.land (nth i a 0) (Z.lnot (lor_all (if inc then skipn (S i) a else firstn i a))) mod 2 ^ w) (seq 0 (length a)).
+Proof. exact PriorityEncoder_wide. Qed.
+Theorem C08_priority_encoder_bit_slice : forall w inc a k, 0 <= k < w ->
+  map (fun v => bit v k) (PriorityEncoder_m w inc a) = prio_spec inc (map (fun v => bit v k) a).
+Proof. exact PriorityEncoder_bit_slice. Qed.
+Theorem C08_priority_encoder_wide_at_1 : forall (inc : bool) a, Forall is_bit a ->
+  map (fun i => Z.land (nth i a 0) (Z.lnot (lor_all (if inc then skipn (S i) a else firstn i a))) mod 2 ^ 1) (seq 0 (length a)) = prio_spec inc a.
+Proof. exact prio_wide_spec_1. Qed.
+(* requests and results of DIFFERENT widths (also accepted): the internal `last` chain has the width w0 of the highest-priority request
+   (PriorityEncoderW_m, Proofs/C08/PrioWide.v, items = (width of r_i, value of a_i)); the uniform model is its instance; it is the bitwise
+   encoder whenever every request fits w0 bits (stated for inc_priority = False) and NOT otherwise: a wider lower-priority request
+   loses its upper bits (replayed on /repo: a = [0 on 1 bit, 2 on 2 bits] gives r = [0, 0]) *)
+Theorem C08_priority_encoder_mixed_uniform : forall w inc a, PriorityEncoderW_m w inc (map (pair w) a) = PriorityEncoder_m w inc a.
+Proof. exact PriorityEncoderW_uniform. Qed.
+Theorem C08_priority_encoder_mixed_partial : forall w0 l, 0 <= w0 -> Forall (fun p => 0 <= fst p /\ fits w0 (snd p)) l ->
+  PriorityEncoderW_m w0 false l = prio_mixed_spec false l.
+Proof. exact PriorityEncoderW_exact_dec. Qed.
+Theorem C08_priority_encoder_mixed_refuted : exists w0 l, Forall (fun p => 0 <= fst p) l /\
+  PriorityEncoderW_m w0 false l <> prio_mixed_spec false l.
+Proof. exact PriorityEncoderW_mixed_refuted. Qed.
+Example C08_priority_encoder_wide_ex : PriorityEncoder_m 3 false [5; 6; 3] = [5; 2; 0] /\ PriorityEncoder_m 3 true [5; 6; 3] = [0; 4; 3] /\
+  PriorityEncoderW_m 2 false [(1, 3); (3, 3)] = [1; 0] /\ Forall (fun p => 0 <= fst p /\ fits 2 (snd p)) [(1, 3); (3, 3)].
+Proof. vm_compute. repeat split; try reflexivity. repeat constructor; cbn; try discriminate; reflexivity. Qed.
 Theorem C08_minterm : forall wr v bits, 1 <= wr -> bits <> [] -> Forall is_bit bits -> Minterm_m wr v bits = minterm_spec v bits.
 Proof. exact Minterm_correct. Qed.
 Theorem C08_sum_of_minterms : forall wa wr a ms, 1 <= wa -> 1 <= wr -> ms <> [] -> fits wa a ->
@@ -221,6 +251,62 @@ Example C08_mixed_ex : XorW_m mid_max 4 [(1, 1); (3, 6); (2, 3)] = 4 /\ OneHotMu
   Mux_m 2 8 1 [3; 0xE8; 7; 9] = 0xE8.
 Proof. vm_compute. repeat split; reflexivity. Qed.
 
+(* ------------------------------------------------------------------ kernel-level netlist refinement of the n-ary And / Or ladders.
+   `and_ladder_design wis w` (Proofs/C08/Netlist.v) is the leaf netlist And.__init__ builds for inputs of widths wis and a result of
+   width w inside a bare HWSystem (wires: 0 clk, 1..n inputs, n+1 r, then for n >= 3 the n-2 intermediates and one dangling wire; leaves in
+   creation order), in the shape py/netlist.py dumps it.  For EVERY arity n >= 1, every widths and EVERY valuation vs of the wires,
+   one Model/SimKernel.propagateAll pass leaves on r what the block model And_m computes from the values on the input wires, leaves the
+   inputs untouched, and the result is settled (C04).  The state type of the design is irrelevant (no sequential leaf). *)
+Theorem C08_and_ladder_netlist_refines : forall (St : Type) wis w vs, wis <> [] ->
+  let D : design St := and_ladder_design wis w in
+  let n := length wis in
+  length vs = length (widths D) ->
+  rd (propagateAll D vs) (ladder_r n) = And_m w (ladder_ins n vs) /\
+  (forall j, (j <= n)%nat -> rd (propagateAll D vs) j = rd vs j) /\
+  length (propagateAll D vs) = length vs /\ settled D (propagateAll D vs).
+Proof. exact (@and_ladder_netlist_refines). Qed.
+Theorem C08_or_ladder_netlist_refines : forall (St : Type) wis w vs, wis <> [] ->
+  let D : design St := or_ladder_design wis w in
+  let n := length wis in
+  length vs = length (widths D) ->
+  rd (propagateAll D vs) (ladder_r n) = Or_m w (ladder_ins n vs) /\
+  (forall j, (j <= n)%nat -> rd (propagateAll D vs) j = rd vs j) /\
+  length (propagateAll D vs) = length vs /\ settled D (propagateAll D vs).
+Proof. exact (@or_ladder_netlist_refines). Qed.
+(* ... hence the reference functions of Spec/C08.v on the wire values *)
+Theorem C08_and_ladder_netlist_spec : forall (St : Type) wis w vs, wis <> [] -> 0 <= w ->
+  length vs = length (widths (and_ladder_design (St := St) wis w)) ->
+  rd (propagateAll (and_ladder_design (St := St) wis w) vs) (ladder_r (length wis)) = and_spec w (ladder_ins (length wis) vs).
+Proof. exact (@and_ladder_netlist_spec). Qed.
+Theorem C08_or_ladder_netlist_spec : forall (St : Type) wis w vs, wis <> [] -> 0 <= w ->
+  length vs = length (widths (or_ladder_design (St := St) wis w)) ->
+  rd (propagateAll (or_ladder_design (St := St) wis w) vs) (ladder_r (length wis)) = or_spec w (ladder_ins (length wis) vs).
+Proof. exact (@or_ladder_netlist_spec). Qed.
+(* C04's hypotheses hold for the ladder of any two-input leaf, any arity *)
+Theorem C08_and_ladder_netlist_refines_wellformed : forall (St : Type) g2 wis w,
+  let D : design St := ladder_design g2 wis w in ordered (combs D) /\ single_driver (combs D).
+Proof. exact (@ladder_design_wellformed). Qed.
+(* the hand-written terms ARE what py/netlist.py dumped for live blocks (pasted dumps in Proofs/C08/NetlistDump.v) *)
+Theorem C08_ladder_design_is_dump :
+  and_ladder_design [3] 3 = NetlistDump.and_dump_1_3 /\ and_ladder_design [3; 3] 3 = NetlistDump.and_dump_2_3 /\
+  and_ladder_design [3; 3; 3] 3 = NetlistDump.and_dump_3_3 /\ and_ladder_design [5; 5; 5; 5] 5 = NetlistDump.and_dump_4_5 /\
+  and_ladder_design [1; 2; 3; 4; 5] 2 = NetlistDump.and_dump_5_2 /\
+  or_ladder_design [2] 2 = NetlistDump.or_dump_1_2 /\ or_ladder_design [4; 4] 4 = NetlistDump.or_dump_2_4 /\
+  or_ladder_design [3; 3; 3] 3 = NetlistDump.or_dump_3_3 /\ or_ladder_design [5; 5; 5; 5] 5 = NetlistDump.or_dump_4_5.
+Proof. exact (conj (proj1 NetlistDump.and_ladder_design_is_dump_1_3) (conj (proj1 NetlistDump.and_ladder_design_is_dump_2_3)
+  (conj (proj1 NetlistDump.and_ladder_design_is_dump_3_3) (conj (proj1 NetlistDump.and_ladder_design_is_dump_4_5)
+  (conj (proj1 NetlistDump.and_ladder_design_is_dump_5_2) (conj (proj1 NetlistDump.or_ladder_design_is_dump_1_2)
+  (conj (proj1 NetlistDump.or_ladder_design_is_dump_2_4) (conj (proj1 NetlistDump.or_ladder_design_is_dump_3_3)
+  (proj1 NetlistDump.or_ladder_design_is_dump_4_5))))))))). Qed.
+(* a 5-input And of mixed input widths on a 4-bit result, wires poked to 15, 14, 7, 13, 15 (intermediates hold garbage 9): r = 4 *)
+Example C08_ladder_netlist_ex :
+  let D : design unit := and_ladder_design [4; 4; 3; 4; 5] 4 in
+  let vs := [0; 15; 14; 7; 13; 15; 9; 9; 9; 9; 9] in
+  length vs = length (widths D) /\ rd (propagateAll D vs) (ladder_r 5) = 4 /\ And_m 4 (ladder_ins 5 vs) = 4 /\
+  propagateAll D vs = [0; 15; 14; 7; 13; 15; 4; 14; 6; 4; 9] /\
+  rd (propagateAll (or_ladder_design (St := unit) [2; 2; 2] 2) [0; 1; 0; 2; 0; 0; 0]) (ladder_r 3) = 3.
+Proof. vm_compute. repeat split; reflexivity. Qed.
+
 (* one Print Assumptions over the tuple of ALL theorems above (separate ones cost ~1 s each): any axiom used by any of them
    would be listed here. *)
 Definition C08_all_theorems :=
@@ -237,7 +323,11 @@ Definition C08_all_theorems :=
    C08_comparator_signed_unsigned_any_policy, C08_max2, C08_min2, C08_signed_max2, C08_signed_min2,
    C08_signed_max_min_meaning, C08_signed_max_min_any_policy, C08_swap, C08_nor_any_mid, C08_nor2_any_mid,
    C08_xor_mixed, C08_xor_uniform_is_mixed, C08_onehot_mux_mixed, C08_onehot_mux_uniform_is_mixed, C08_onehot_demux_mixed,
-   C08_any_equal_mixed, C08_any_equal_uniform_is_mixed).
+   C08_any_equal_mixed, C08_any_equal_uniform_is_mixed,
+   C08_priority_encoder_wide, C08_priority_encoder_bit_slice, C08_priority_encoder_wide_at_1, C08_priority_encoder_mixed_uniform,
+   C08_priority_encoder_mixed_partial, C08_priority_encoder_mixed_refuted,
+   C08_and_ladder_netlist_refines, C08_or_ladder_netlist_refines, C08_and_ladder_netlist_spec, C08_or_ladder_netlist_spec,
+   C08_and_ladder_netlist_refines_wellformed, C08_ladder_design_is_dump).
 Print Assumptions C08_all_theorems.
 
 (* names used by other developments (Proofs/C01/ComposePrim.v) for the two headline theorems *)
